@@ -149,3 +149,24 @@ Definition obs_entries_ok (r : result out)
       && match omapM (ventry_reading o) (o_ventries o) with Some l => same_items ventry_obs_eqb l verts | None => false end
   | _ => true
   end.
+
+(** * C15: the constants of the compiled module (declared type; value: integers as numbers, floats as [to_bits], bools
+    as 0 / 1) against the extracted output *)
+Definition lit_value (l : literal) : option Z :=
+  match l with
+  | LF64 x | LF32 x | LU32 x | LU64 x => Some (Z.of_N x)
+  | LI32 z | LI64 z => Some z
+  | LBool b => Some (if b then 1 else 0)%Z
+  | _ => None                                     (* abstract literals are never exported *)
+  end.
+Definition cobs_eqb (a b : string * rprim * Z) : bool :=
+  String.eqb (fst (fst a)) (fst (fst b)) && rprim_eqb (snd (fst a)) (snd (fst b)) && Z.eqb (snd a) (snd b).
+Definition obs_consts_ok (r : result out) (recorded : list (string * rprim * Z)) : bool :=
+  match r with
+  | Ok o =>
+      match omapM (fun k => option_map (fun v => (k_name k, k_ty k, v)) (lit_value (k_lit k))) (o_consts o) with
+      | Some l => same_items cobs_eqb l recorded
+      | None => false
+      end
+  | _ => true
+  end.
